@@ -757,6 +757,39 @@ def concrete_name_spellings(rep):
                     rep.violations.append({"label": "expansion differs: depends on the spelling of a name", "signature": {"what": "expansion differs", "part": "names", "formula": f},
                                            "replay": {"formula": f}, "reproduced": True, "detail": detail[:300]})
     rep.extra["concrete_name_formulas"] = n
+    # call atoms that differ in a nested call, in the type of a literal, in a keyword value
+    atoms = ["f(h(x))", "f(x)", "f(x, 1)", "f(x, True)", "f(x, 1.0)", "f(x, '1')", "g(x, a=1)", "g(x, a=2)", "f(x + 1)", "f(1 + x)"]
+    m = 0
+    for a in atoms:
+        for b in atoms:
+            if a == b:
+                continue
+            for sh in ("y ~ A:B", "y ~ A*B", "y ~ A + B", "y ~ c + A - B", "y ~ (A + B)**2", "y ~ (A|g) + (B|g)", "y ~ A/B"):
+                f = sh.replace("A", "\0").replace("B", b).replace("\0", a)
+                m += 1
+                bad, detail = replay({"formula": f})
+                if bad:
+                    rep.violations.append({"label": "expansion differs: two different calls", "signature": {"what": "expansion differs", "part": "call atoms", "formula": f},
+                                           "replay": {"formula": f}, "reproduced": True, "detail": detail[:300]})
+    # one notion of "the same call" for every operator: keyword order
+    from formulae import model_description
+
+    for P, Q in (("g(x, a=1, b=2)", "g(x, b=2, a=1)"), ("g(x, k='s', j=h(x))", "g(x, j=h(x), k='s')")):
+        m += 1
+        try:
+            colon = [t for t in model_description(f"y ~ 0 + {P}:{Q}").common_terms]
+            plus = [t for t in model_description(f"y ~ 0 + {P} + {Q}").common_terms]
+            minus = [t for t in model_description(f"y ~ 0 + c + {P} - {Q}").common_terms]
+            group = model_description(f"y ~ ({P}|g) + ({Q}|g)").group_terms
+        except Exception as e:  # noqa
+            rep.violations.append({"label": "in-language formula raises", "signature": {"what": "in-language formula raises", "part": "call atoms", "formula": f"{P} / {Q}", "exc": type(e).__name__},
+                                   "replay": {"P": P, "Q": Q}, "reproduced": True, "detail": f"{type(e).__name__}: {e}"})
+            continue
+        verdicts = {"':'": len(colon[0].components) == 1, "'+'": len(plus) == 1, "'-'": len(minus) == 1, "'|'": len(group) == 2}
+        if len(set(verdicts.values())) != 1:
+            rep.violations.append({"label": "expansion differs: operators disagree on whether two calls are the same", "signature": {"what": "expansion differs", "part": "call identity", "formula": f"{P} / {Q}"},
+                                   "replay": {"P": P, "Q": Q, "same_call_according_to": verdicts}, "reproduced": True, "detail": f"{P} vs {Q}: same call according to {verdicts}"})
+    rep.extra["concrete_call_atom_formulas"] = m
 
 
 def _work(job):
